@@ -246,22 +246,22 @@ ADDENDA = {
         'leaves the rest (framing_recv_translated), raises on a CR not followed by LF, raises ConnectionError at end of stream, blocks (never spins) '
         'on an open empty stream; any list of CR-free messages is received intact and in order (framing_stream_translated); on ASCII text the outcomes '
         'are those of the byte-level model (framing_recv_model). Assumed: UTF-8 encode/decode are inverse (the translated socket carries characters).',
- 'C09': THREADS_COMMON + 'Translated/ThreadsSeatA.lean, ThreadsSeatB.lean (and ThreadsSeatC.lean when present): the translated seat thread — _check_message, _deal, '
+ 'C09': THREADS_COMMON + 'Translated/ThreadsSeatA.lean, ThreadsSeatB.lean and ThreadsSeatC.lean (the whole SeatThread.run: seat_run_translated = admission + seatReactive; refused and not-ready paths): the translated seat thread — _check_message, _deal, '
         '_bidding_phase (while-loop, every queue length), _playing_phase (13 x 4 loop), _connect — performs exactly the operations of the reactive model '
         '(seatDealR, seatBiddingR, seatPlayingR) which C09.seat_thread_follows_its_queue identifies with the session program; hypotheses: the '
         'client\'s "ready" messages pass the server\'s own check (stated with the same regular-expression engine the translated code calls).',
- 'C08': THREADS_COMMON + 'Translated/ThreadsMainA.lean, ThreadsMainB.lean (and ThreadsMainC.lean when present): the translated Server.deal, bidding_phase '
+ 'C08': THREADS_COMMON + 'Translated/ThreadsMainA.lean, ThreadsMainB.lean and ThreadsMainC.lean (the whole MainThread.run: main_run_translated = bind, listen, one accept round per served connection, then mainReactive; the dict handed to the log writer is the record recordFrom): the translated Server.deal, bidding_phase '
         '(own BiddingPhase through the Translated/Auction theorems; an illegal call raises after the two notices) and playing_phase (own '
         'PlayingPhaseWithHands through the Translated/Play theorems; the time.sleep of every trick recorded) perform exactly the operations of the '
         'reactive model (mainDealR, mainBiddingR, mainPlayingR) which C08.main_thread_follows_the_messages identifies with the session program and '
         'the logged record; hypotheses: what the translated parse_bid / parse_card return on the texts received is what the model\'s parsers return.',
- 'C11': THREADS_COMMON + 'Translated/ThreadsClientA.lean (and ThreadsClientB.lean when present): the translated bundled Client — _connect, _deal, bidding_phase with its own '
+ 'C11': THREADS_COMMON + 'Translated/ThreadsClientA.lean and ThreadsClientB.lean (playing_phase with the client's own ObservedPlayingPhase replica = clientPlayingR): the translated bundled Client — _connect, _deal, bidding_phase with its own '
         'BiddingPhase replica — performs exactly the operations of the reactive client model (clientDealR, clientBiddingR), returns the contract the '
         'replica holds, raises when the replica refuses a relayed call; create_bid_message proved for all 38 calls x 4 seats by kernel evaluation.',
  'C20': THREADS_COMMON + 'Translated/ThreadsSeatB.lean: the translated PlayerThread._connect on EVERY seat table and request — the three tests in the code\'s order are '
         'admitReq, the reply text is replyText, a refused request leaves the table unchanged and is answered, closed and signalled, a seated one writes '
         'its seat, answers, awaits "ready for teams", signals, passes the barrier and sends the Teams message built from the table after the barrier '
-        '(seat_connect_translated, seat_connect_not_ready_translated, seat_connect_matches_connectR). In the admission sessions of this check every '
+        '(seat_connect_translated, seat_connect_not_ready_translated, seat_connect_matches_connectR); Translated/ThreadsMainC.lean: the translated accept loop performs one accept round (accept, new thread, start, wait for the verdict, sleep, is_alive, clear) per served connection until the table is full and keeps the threads found alive (main_accept_loop_translated). In the admission sessions of this check every '
         'connection thread (seated or refused) and the accept loop are compared with the translated program.',
  'C10': ' The seat thread that sends these streams is also covered as TRANSLATED code (see C09: Generated/PyCoreThreads.lean, Translated/ThreadsSeat*.lean). '
         'Refused actions (an illegal call, a card not held, a card already played) are exercised too: nobody may be told about an action that was not accepted.',
